@@ -27,18 +27,27 @@ class TreeGen:
         self.nk = 0
         self.extra = []       # variables defined in all branches of some if
         self.kinds = set()
+        self.lists = rnd.random() < 0.5     # tracked list / nested-list variables updated in place
+
+    ELEMS = ["l[0]", "l[1]", "l[2]", "m[0][0]", "m[0][1]", "m[1][0]", "m[1][1]"]
+
+    def atom(self, vars_):
+        r = self.rnd
+        if self.lists and r.random() < 0.3:
+            return r.choice(self.ELEMS)
+        return r.choice(vars_)
 
     def expr(self, vars_):
         r = self.rnd
-        v = r.choice(vars_)
-        w = r.choice(vars_)
+        v = self.atom(vars_)
+        w = self.atom(vars_)
         k = r.randint(1, 3)
         return r.choice(["{%s} + {%s}" % (v, w), "{%s} + %d" % (v, k), "{%s} - %d" % (v, k), "{%s} * 2" % v, "{%s} - {%s}" % (v, w),
                          "%d" % k, "{%s}" % w, "{%s} * {%s}" % (v, w) if r.random() < 0.3 else "{%s} + 1" % v])
 
     def cond(self, vars_):
         r = self.rnd
-        v, w = r.choice(vars_), r.choice(vars_)
+        v, w = self.atom(vars_), self.atom(vars_)
         k = r.randint(0, 6)
         base = r.choice(["{%s} < {%s}" % (v, w), "{%s} <= %d" % (v, k), "{%s} == %d" % (v, k), "{%s} != {%s}" % (v, w),
                          "{%s} > %d" % (v, k), "{%s} >= {%s}" % (v, w)])
@@ -57,6 +66,9 @@ class TreeGen:
         r = self.rnd
         x = r.random()
         if depth >= 3 or x < 0.45:
+            if self.lists and r.random() < 0.35:
+                self.kinds.add("list-element-write")
+                return ("assign", r.choice(self.ELEMS), self.expr(vars_))
             return ("assign", r.choice(vars_), self.expr(vars_))
         if x < 0.72:
             self.kinds.add("if")
@@ -108,7 +120,7 @@ def render(tree, api):
 
     def ex(e):
         out = e
-        for v in ["a", "b", "c"] + ["d%d" % i for i in range(10)]:
+        for v in ["a", "b", "c"] + ["d%d" % i for i in range(10)] + TreeGen.ELEMS:
             out = out.replace("{%s}" % v, ("_.%s" % v) if api else v)
         return out
 
@@ -122,6 +134,8 @@ def render(tree, api):
                 rhs = ex(st[2])
                 if api and rhs.lstrip("-").isdigit():
                     rhs = "ConstVal(%s)" % rhs      # keep tracked variables secret-typed so that every condition is a secret one
+                if "[" in st[1] and not api:
+                    rhs = rhs       # in-place element update of a native list
                 emit(ind, "%s = %s" % (("_.%s" % st[1]) if api else st[1], rhs))
             elif k == "if":
                 _, c, then, elifs, els, newvar = st
@@ -212,8 +226,13 @@ def worker(job):
         rnd = random.Random("%s/%d" % (job["seed"], n))
         tg = TreeGen(rnd)
         tree = tg.program()
-        api_src = "\n".join(["_ = BranchingValues()", "_.a = PrivVal(I[0])", "_.b = PrivVal(I[1])", "_.c = PrivVal(I[2])"] + render(tree, True)) + "\n"
-        twin_src = "\n".join(["a = I[0]", "b = I[1]", "c = I[2]"] + render(tree, False)) + "\n"
+        head_api = ["_ = BranchingValues()", "_.a = PrivVal(I[0])", "_.b = PrivVal(I[1])", "_.c = PrivVal(I[2])"]
+        head_twin = ["a = I[0]", "b = I[1]", "c = I[2]"]
+        if tg.lists:
+            head_api += ["_.l = [_.a + 0, _.b + 1, ConstVal(3)]", "_.m = [[_.a + 1, _.b + 0], [_.c + 0, ConstVal(2)]]"]
+            head_twin += ["l = [a + 0, b + 1, 3]", "m = [[a + 1, b + 0], [c + 0, 2]]"]
+        api_src = "\n".join(head_api + render(tree, True)) + "\n"
+        twin_src = "\n".join(head_twin + render(tree, False)) + "\n"
         prog = G.Prog(api_src, [], 32, 0)
         try:
             chunks = G.compile_chunks(api_src)
@@ -270,9 +289,7 @@ def worker(job):
                     bad = (name, "defined by the API program only")
                     break
                 v = ctx.vals[name]
-                av = getattr(getattr(v, "lc", v), "value", v) if not isinstance(v, int) else v
-                if hasattr(v, "value"):
-                    av = v.value
+                av = plainval(v)
                 ncmp += 1
                 if av != tns[name]:
                     bad = (name, "API %r, native %r" % (av, tns[name]))
@@ -302,6 +319,16 @@ def worker(job):
                                 src=api_src, inputs_a=completed[0][0], inputs_b=inputs, p=p)
                     break
     return R.export()
+
+
+def plainval(v):
+    if isinstance(v, list):
+        return [plainval(x) for x in v]
+    if isinstance(v, int):
+        return v
+    if hasattr(v, "value"):
+        return v.value
+    return getattr(getattr(v, "lc", v), "value", v)
 
 
 def branch_signature(tns):
